@@ -224,11 +224,11 @@ def check(prop, tier, seed):
     lines_out = []
 
     # builds: model runner and harness (against /repo's working tree)
-    ok, out = common.build_coq(["Model/Prog.vo"])   # the model runner needs the model only, not the proofs
-    okd, outd = common.build_driver() if ok else (False, out)
-    okh, outh = common.build_harness()
-
-    obligations, discharged, gate_problems, theorems = proof_gate(prop, tier)
+    with common.build_lock():
+        ok, out = common.build_coq(["Model/Prog.vo"])   # the model runner needs the model only, not the proofs
+        okd, outd = common.build_driver() if ok else (False, out)
+        okh, outh = common.build_harness()
+        obligations, discharged, gate_problems, theorems = proof_gate(prop, tier)
     gen = props.GENERATORS[prop](tier, rng)
     cases = gen["cases"]
     if tier == "thorough":
@@ -274,7 +274,8 @@ def check(prop, tier, seed):
 
     results, impl, model, problems = run_cases(prop, cases, "--twice" if prop == "C20" else "") if okd else ([], {}, {}, [])
     if prop == "C19" and okd:
-        okp, outp = common.build_pymodule()
+        with common.build_lock():
+            okp, outp = common.build_pymodule()
         if not okp:
             path = write_replay(prop, "build", None, [], [], {}, {}, note="the Python extension module does not build:\n" + outp[-3000:])
             print("VIOLATION property=%s replay=%s no-failing-input-found" % (prop, path)); violations += 1
